@@ -90,7 +90,9 @@ EvictMore(P, O) ==
         B  == { << {O1[i] : i \in 1..(Len(O1) - n)}, SubSeq(O1, 1, Len(O1) - n) >> : n \in 1..Len(O1) }
     IN { po \in A \cup B : limit = 0 \/ Cardinality(po[1]) < limit }
 
-StoreUnderPressure(k, v, ts, dl) ==
+\* mayDrop: the value is big enough for its allocation to fail although room was made (the trace spec binds it to the logged
+\* value size: a value below 1/40 of the segment always fits after the make-room loop guaranteed a free chunk of 1/10)
+StoreUnderPressure(k, v, ts, dl, mayDrop) ==
     LET P0 == present \ {k}
         O0 == Without(order, k)
         newlast == [last EXCEPT ![k] = [has |-> TRUE, v |-> v, ts |-> ts \cup {k}, dl |-> dl]]
@@ -100,12 +102,15 @@ StoreUnderPressure(k, v, ts, dl) ==
        /\ \/ \E po \in EvictMore(P0, O0) :                       \* stored, possibly after extra evictions
                 /\ present' = po[1] \cup {k} /\ order' = <<k>> \o po[2]
                 /\ dead' = [j \in Names |-> IF j = k THEN FALSE ELSE IF j \in P0 \ po[1] THEN TRUE ELSE dead[j]]
-          \/ /\ present' = P0 /\ order' = O0                       \* StoreDropped
+          \/ /\ mayDrop
+             /\ present' = P0 /\ order' = O0                       \* StoreDropped
              /\ dead' = [dead EXCEPT ![k] = TRUE]
           \/ \E po \in EvictMore(P0, O0) :                       \* evictions first, then the value still did not fit
+                /\ mayDrop
                 /\ present' = po[1] /\ order' = po[2]
                 /\ dead' = [j \in Names |-> IF j = k \/ j \in P0 \ po[1] THEN TRUE ELSE dead[j]]
-          \/ /\ present' = {} /\ order' = <<>>                     \* StoreClearedAll
+          \/ /\ mayDrop
+             /\ present' = {} /\ order' = <<>>                     \* StoreClearedAll
              /\ dead' = [j \in Names |-> TRUE]
 
 Fetch(k) ==
@@ -149,7 +154,7 @@ Next ==
           /\ Store(k, nv + 1, ts, dl)
     \/ (Shared /\ \E k \in Names, ts \in TrigSets, dl \in Deadlines :
           /\ nv' = nv + 1
-          /\ StoreUnderPressure(k, nv + 1, ts, dl))
+          /\ \E md \in BOOLEAN : StoreUnderPressure(k, nv + 1, ts, dl, md))
     \/ \E k \in Names : Fetch(k)
     \/ \E t \in Names : Rise(t)
     \/ \E k \in Names : Remove(k)
